@@ -697,8 +697,12 @@ def _constraint_kmeans_weights(
     all_centers = []
 
     while it < max_iter:
-        # compute new clusters
-        centers = _centers_fct(X, sw, labels, n_clusters, None)
+        # compute new clusters, an empty cluster is moved to
+        # the point which is the furthest from its center
+        distances_close = euclidean_distances(X, centers)[
+            numpy.arange(X.shape[0]), labels
+        ]
+        centers = _centers_fct(X, sw, labels, n_clusters, distances_close)
         if history:
             all_centers.append(centers)
 
